@@ -72,4 +72,13 @@ def jobs(tier):
                          bounded="registry pre-state with taskpool_array_size == %d (pos, slot contents, ids symbolic)%s"
                                  % (sz, "; synchronised maximum of 1..4 processes < %d" % maxsz if fn == "sync" else ""),
                          functions=FUNS[fn], timeout=1200 if full else 600, mem_gb=4, min_obligations=MINOB[fn]))
+    # ---- UNBOUNDED array size: loop contracts on the slot-initialisation loops of reserve_id / register
+    INV = ("__CPROVER_loop_invariant(taskpool_array_size == 2 * g_old && i >= g_old && i <= 2 * g_old && "
+           "(g_g < g_old || g_g >= i || taskpool_array[g_g] == NOTASKPOOL) && "
+           "(g_g >= g_old || taskpool_array[g_g] == (parsec_taskpool_t*)g_oldval)) __CPROVER_decreases(2 * g_old - i)")
+    for fn, entry in (("parsec_taskpool_reserve_id", "h_reserve_grow"), ("parsec_taskpool_register", "h_register_grow")):
+        J.append(Job("grow.loop_contract." + fn.replace("parsec_taskpool_", ""), "h_grow_unbounded.c", entry=entry, loop_contracts=True, unwind=2,
+                     overlay=[("parsec/parsec.c", [{"function": "parsec_taskpool_reserve_id", "loops": 1, "loop": 0, "text": "__CPROVER_assigns(i, __CPROVER_object_whole(taskpool_array)) " + INV},
+                                                    {"function": "parsec_taskpool_register", "loops": 1, "loop": 0, "text": "__CPROVER_assigns(i, __CPROVER_object_whole(taskpool_array)) " + INV}])],
+                     functions=[fn], min_obligations=5, timeout=600))
     return J
